@@ -75,9 +75,9 @@ Next ==
     \/ \E a2 \in SwHealth : MSwConnect(a2)
     \/ \E i \in Files : MFileScan(i) \/ MFileCorrupt(i) \/ MFileRepair(i) \/ MFileRestore(i)
     \/ MSqlDelete \/ MSqlEncrypt \/ MFolderCorrupt \/ MFolderRepair
-    \/ \E dn \in Instant(scanDur), rs \in Rs : MFolderScan(dn, rs)
-    \/ \E dn \in Instant(restDur), rs \in Rs : MFolderRestore(dn, rs)
-    \/ \E dn \in Instant(nodeDur), rs \in Rs : MOsScan(dn, rs)
+    \/ \E dn, rs \in BOOLEAN : dn \in Instant(scanDur) /\ rs \in Rs /\ MFolderScan(dn, rs)
+    \/ \E dn, rs \in BOOLEAN : dn \in Instant(restDur) /\ rs \in Rs /\ MFolderRestore(dn, rs)
+    \/ \E dn, rs \in BOOLEAN : dn \in Instant(nodeDur) /\ rs \in Rs /\ MOsScan(dn, rs)
     \/ MPowerOff \/ MPowerOn
     \/ TickStep
 
